@@ -187,7 +187,9 @@ PROPS = {
     "C07": dict(
         units=["u6_gc"], level="model_checking",
         level_text=("Drop for VmGreenThread releases every object once with its own layout and heap_size returns to 0 (CBMC double-free/layout/leak checks); "
-                    "the owner of static_strings releases what new_static leaked (CBMC memory-leak check); sweep makes progress (ranking function len - index)."),
+                    "the owner of static_strings releases what new_static leaked (CBMC memory-leak check); sweep makes progress (ranking function len - index); "
+                    "heap accounting: every collector step, constructor and heap-touching arm preserves heap_size == sum of the objects' nbytes (clause of the "
+                    "GC invariant; it is what the collection trigger heap_size > 2 * last_gc_heap_size is computed from) - exhaustive bounded execution."),
         level_note=("Second sentence of the property plus sweep progress only; the pacing claim (bounded heap for bounded live data, eventual reclamation) is a "
                     "whole-history property and is not decided. Note: gc_debt is never reset, so increments are effectively whole phases."),
         technique="Kani/CBMC with --memory-leak-check + exhaustive bounded execution",
